@@ -3,6 +3,8 @@ use vstd::prelude::*;
 use vstd::iset::*;
 use std::hash::Hash;
 use vstd::arithmetic::div_mod::*;
+use std::cmp::Ordering;
+use vstd::std_specs::cmp::*;
 verus! {
 global size_of usize == 8;
 
@@ -212,6 +214,7 @@ struct BloomFilter {
 seed : u64 , num_hashes : u16 , num_bits_set : u64 , bit_array : Box < [ u64 ] > , }
 
 
+
 impl BloomFilter {
     spec fn wf(&self) -> bool {
         &&& 1 <= self.bit_array@.len() <= 0x7fff_ffff
@@ -244,6 +247,7 @@ let ( h0 , h1 ) = self . compute_hash ( item ) ;
 self . check_bits ( h0 , h1 ) }
 
 
+
     fn contains_and_insert < T : Hash > ( & mut self , item : & T ) -> ( r : bool ) requires old ( self ) . wf ( ) ensures final ( self ) . wf ( ) ,
 /*@C18.bloom_size*/ final ( self ) . same_config ( old ( self ) ) ,
 /*@C09.contains_and_insert_result*/ r <==> all_present ( old ( self ) . bit_array @ , hash_pair ( old ( self ) . seed , * item ) . 0 , hash_pair ( old ( self ) . seed , * item ) . 1 , old ( self ) . num_hashes as int ) ,
@@ -252,6 +256,7 @@ let ( h0 , h1 ) = self . compute_hash ( item ) ;
 let was_present = self . check_bits ( h0 , h1 ) ;
 self . set_bits ( h0 , h1 ) ;
 was_present }
+
 
 
     fn insert < T : Hash > ( & mut self , item : T ) requires old ( self ) . wf ( ) ensures final ( self ) . wf ( ) ,
@@ -267,6 +272,7 @@ assert ( positions ( h0 , h1 , self . num_hashes as int , self . cap ( ) ) . con
 }
 }
 }
+
 
 
     fn reset ( & mut self ) requires old ( self ) . wf ( ) ensures final ( self ) . wf ( ) ,
@@ -286,6 +292,7 @@ assert ( ( 0u64 >> c ) & 1 == 0 ) by ( bit_vector ) ;
 assert ( bits ( ws ) =~= ISet :: < int > :: empty ( ) ) ;
 }
 self . num_bits_set = 0 }
+
 
 
     fn union ( & mut self , other : & BloomFilter ) requires old ( self ) . wf ( ) , other . wf ( ) , old ( self ) . same_config ( other ) ensures final ( self ) . wf ( ) ,
@@ -320,6 +327,7 @@ lemma_bits_or ( ws0 , wo , self . bit_array @ ) ;
 }
 
 
+
     fn intersect ( & mut self , other : & BloomFilter ) requires old ( self ) . wf ( ) , other . wf ( ) , old ( self ) . same_config ( other ) ensures final ( self ) . wf ( ) ,
 /*@C18.bloom_size*/ final ( self ) . same_config ( old ( self ) ) ,
 /*@C09.intersect_bits*/ final ( self ) @ == old ( self ) @ . intersect ( other @ ) ,
@@ -352,6 +360,7 @@ lemma_bits_and ( ws0 , wo , self . bit_array @ ) ;
 }
 
 
+
     fn invert ( & mut self ) requires old ( self ) . wf ( ) ensures final ( self ) . wf ( ) ,
 /*@C18.bloom_size*/ final ( self ) . same_config ( old ( self ) ) ,
 /*@C09.invert_bits*/ final ( self ) @ == ISet :: new ( | i : int | 0 <= i < old ( self ) . cap ( ) && ! old ( self ) @ . contains ( i ) ) ,
@@ -376,8 +385,26 @@ lemma_bits_not ( ws0 , self . bit_array @ ) ;
 }
 
 
+
     fn is_empty ( & self ) -> ( r : bool ) ensures r == ( self . num_bits_set == 0 ) {
 self . num_bits_set == 0 }
+
+
+
+
+    fn bits_used ( & self ) -> ( r : u64 ) ensures
+/*@C09.bits_used*/ r == self . num_bits_set , self . wf ( ) ==> r == total_pc ( self . bit_array @ ) {
+self . num_bits_set }
+
+
+    fn num_hashes ( & self ) -> ( r : u16 ) ensures
+/*@C09.num_hashes_getter*/ r == self . num_hashes {
+self . num_hashes }
+
+
+    fn seed ( & self ) -> ( r : u64 ) ensures
+/*@C09.seed_getter*/ r == self . seed {
+self . seed }
 
 
     fn capacity ( & self ) -> ( r : usize ) requires self . bit_array @ . len ( ) <= 0x7fff_ffff ensures
@@ -385,9 +412,11 @@ self . num_bits_set == 0 }
 self . bit_array . len ( ) * 64 }
 
 
+
     fn is_compatible ( & self , other : & Self ) -> ( r : bool ) ensures
 /*@C09.compatible*/ r == self . same_config ( other ) {
 self . bit_array . len ( ) == other . bit_array . len ( ) && self . num_hashes == other . num_hashes && self . seed == other . seed }
+
 
 
     fn check_bits ( & self , h0 : u64 , h1 : u64 ) -> ( r : bool ) requires self . wf ( ) ensures
@@ -405,6 +434,7 @@ return false ;
 true }
 
 
+
     fn set_bits ( & mut self , h0 : u64 , h1 : u64 ) requires old ( self ) . wf ( ) ensures final ( self ) . wf ( ) ,
 /*@C18.bloom_size*/ final ( self ) . same_config ( old ( self ) ) ,
 /*@C09.set_bits_exact*/ final ( self ) @ == old ( self ) @ . union ( positions ( h0 , h1 , old ( self ) . num_hashes as int , old ( self ) . cap ( ) ) ) ,
@@ -420,6 +450,7 @@ lemma_positions_step ( h0 , h1 , i as int , old ( self ) . cap ( ) ) ;
 }
 
 
+
     fn compute_bit_index ( & self , h0 : u64 , h1 : u64 , i : u16 ) -> ( r : usize ) requires 1 <= self . bit_array @ . len ( ) <= 0x7fff_ffff ensures
 /*@C09.position_formula*/ r == pos ( h0 , h1 , i as int , self . cap ( ) ) , r < self . bit_array @ . len ( ) * 64 {
 let hash = h0 . wrapping_add ( u64 :: from ( i ) . wrapping_mul ( h1 ) ) as usize ;
@@ -428,6 +459,7 @@ lemma_pos ( h0 , h1 , i , ( self . bit_array @ . len ( ) * 64 ) as usize ) ;
 lemma_pos_range ( h0 , h1 , i as int , self . cap ( ) ) ;
 }
 ( hash >> 1 ) % self . capacity ( ) }
+
 
 
     /// Gets the value of a single bit.
@@ -446,6 +478,7 @@ let b = bit_offset as u64 ;
 assert ( b < 64 ==> ( ( w & ( 1u64 << b ) ) != 0 <==> ( ( w >> b ) & 1 == 1 ) ) ) by ( bit_vector ) ;
 }
 ( self . bit_array [ word_index ] & mask ) != 0 }
+
 
 
     /// Sets a single bit and updates the count if it wasn't already set.
@@ -491,6 +524,113 @@ assert ( i == bit_index ) ;
 }
 assert ( bits ( ws1 ) =~= bits ( ws0 ) . insert ( bit_index as int ) ) ;
 }
+}
+
+
+}
+
+// =====================================================================================================================
+// bloom/builder.rs: integer part of the construction path (C18 sizing, C09 initial state)
+// =====================================================================================================================
+struct Family {
+id : u8 , name : & 'static str , min_pre_longs : u8 , max_pre_longs : u8 , }
+
+impl Family {
+    const BLOOMFILTER : Family = Family {
+id : 21 , name : "BLOOMFILTER" , min_pre_longs : 3 , max_pre_longs : 4 , }
+;
+
+}
+const DEFAULT_UPDATE_SEED : u64 = 9001 ;
+
+const MIN_NUM_BITS : u64 = 1 ;
+
+const MAX_NUM_BITS : u64 = ( i32 :: MAX as u64 - Family :: BLOOMFILTER . max_pre_longs as u64 ) * 64 ;
+
+const MIN_NUM_HASHES : u16 = 1 ;
+
+const MAX_NUM_HASHES : u16 = i16 :: MAX as u16 ;
+
+
+struct BloomFilterBuilder {
+num_bits : u64 , num_hashes : u16 , seed : u64 , }
+
+
+pub assume_specification<T, A: std::alloc::Allocator> [ Vec::<T, A>::into_boxed_slice ] (v: Vec<T, A>) -> (r: Box<[T], A>)
+  ensures r@ == v@;
+pub assume_specification [ u64::div_ceil ] (a: u64, b: u64) -> (r: u64)
+  requires b != 0
+  ensures r == (a + b - 1) / (b as int);
+
+// f64 comparison operators are functions of their operands (floats stay uninterpreted)
+#[verifier::external_body] proof fn axiom_f64_cmp_deterministic() ensures <f64 as PartialOrdSpec>::obeys_partial_cmp_spec() {}
+// the documented argument range of with_accuracy: fpp in (0.0, 1.0]
+spec fn fpp_in_range(fpp: f64) -> bool {
+    fpp.partial_cmp_spec(&0.0f64) == Some(Ordering::Greater) && (fpp.partial_cmp_spec(&1.0f64) == Some(Ordering::Less) || fpp.partial_cmp_spec(&1.0f64) == Some(Ordering::Equal))
+}
+// float leaves: the suggested sizes are formulas over f64 (ln, ceil, clamp); ASSUMED: only that the final `clamp` keeps the result
+// inside the documented bounds (the formulas themselves are not under contract)
+#[verifier::external_body]
+fn suggest_num_bits(max_items: u64, fpp: f64) -> (r: u64)
+  ensures MIN_NUM_BITS <= r <= MAX_NUM_BITS
+{ unimplemented!() }
+#[verifier::external_body]
+fn suggest_num_hashes_from_accuracy(max_items: u64, num_bits: u64) -> (r: u16)
+  ensures MIN_NUM_HASHES <= r <= MAX_NUM_HASHES
+{ unimplemented!() }
+
+impl BloomFilterBuilder {
+    // the documented argument ranges of with_size; with_accuracy produces them through the clamps
+    spec fn wf(&self) -> bool {
+        &&& MIN_NUM_BITS <= self.num_bits <= MAX_NUM_BITS
+        &&& MIN_NUM_HASHES <= self.num_hashes <= MAX_NUM_HASHES
+    }
+
+    fn with_accuracy ( max_items : u64 , fpp : f64 ) -> ( r : Self ) requires max_items > 0 , fpp_in_range ( fpp ) ensures
+/*@C18.bloom_builder_ranges*/ r . wf ( ) , r . seed == DEFAULT_UPDATE_SEED {
+assert! ( max_items > 0 ) ;
+proof {
+axiom_f64_cmp_deterministic ( ) ;
+}
+assert! ( fpp > 0.0 && fpp <= 1.0 ) ;
+let num_bits = suggest_num_bits ( max_items , fpp ) ;
+let num_hashes = suggest_num_hashes_from_accuracy ( max_items , num_bits ) ;
+BloomFilterBuilder {
+num_bits , num_hashes , seed : DEFAULT_UPDATE_SEED , }
+}
+
+
+    fn with_size ( num_bits : u64 , num_hashes : u16 ) -> ( r : Self ) requires MIN_NUM_BITS <= num_bits <= MAX_NUM_BITS , MIN_NUM_HASHES <= num_hashes <= MAX_NUM_HASHES ensures
+/*@C18.bloom_builder_ranges*/ r . wf ( ) , r . num_bits == num_bits , r . num_hashes == num_hashes , r . seed == DEFAULT_UPDATE_SEED {
+assert! ( ( MIN_NUM_BITS ..= MAX_NUM_BITS ) . contains ( & num_bits ) ) ;
+assert! ( ( MIN_NUM_HASHES ..= MAX_NUM_HASHES ) . contains ( & num_hashes ) ) ;
+BloomFilterBuilder {
+num_bits , num_hashes , seed : DEFAULT_UPDATE_SEED , }
+}
+
+
+    fn build ( self ) -> ( r : BloomFilter ) requires self . wf ( ) ensures r . wf ( ) ,
+/*@C09.build_empty*/ r @ == ISet :: < int > :: empty ( ) , r . num_bits_set == 0 ,
+/*@C09.build_config*/ r . seed == self . seed , r . num_hashes == self . num_hashes ,
+/*@C18.bloom_size*/ r . bit_array @ . len ( ) == ( self . num_bits + 63 ) / 64 ,
+/*@C18.bloom_size*/ self . num_bits <= r . cap ( ) < self . num_bits + 64 , {
+let num_hashes = self . num_hashes ;
+let num_words = self . num_bits . div_ceil ( 64 ) as usize ;
+let bit_array = vec! [ 0u64 ;
+num_words ] . into_boxed_slice ( ) ;
+proof {
+let ws = bit_array @ ;
+lemma_total_zero ( ws ) ;
+assert forall | i : int | ! bits ( ws ) . contains ( i ) by {
+if 0 <= i < ws . len ( ) * 64 {
+let c = ( i % 64 ) as u64 ;
+assert ( ( 0u64 >> c ) & 1 == 0 ) by ( bit_vector ) ;
+}
+}
+assert ( bits ( ws ) =~= ISet :: < int > :: empty ( ) ) ;
+}
+BloomFilter {
+seed : self . seed , num_hashes , num_bits_set : 0 , bit_array , }
 }
 
 }
